@@ -556,6 +556,27 @@ def rule_c16_r1(model: Model) -> RuleResult:
     return r
 
 
+def _source_names(f: FuncInfo, e: ast.AST) -> t.Set[str]:
+    """Names an expression is computed from, followed through the local variables of ``f`` (all their assignments)."""
+    assigns: t.Dict[str, t.List[ast.AST]] = {}
+    for st in ast.walk(f.node):
+        if isinstance(st, ast.Assign):
+            for tg in st.targets:
+                if isinstance(tg, ast.Name):
+                    assigns.setdefault(tg.id, []).append(st.value)
+        elif isinstance(st, (ast.AnnAssign, ast.NamedExpr)) and isinstance(st.target, ast.Name) and st.value is not None:
+            assigns.setdefault(st.target.id, []).append(st.value)
+    out: t.Set[str] = set()
+    todo = [e]
+    while todo:
+        x = todo.pop()
+        for nm in ast.walk(x):
+            if isinstance(nm, ast.Name) and nm.id not in out:
+                out.add(nm.id)
+                todo.extend(assigns.get(nm.id, []))
+    return out
+
+
 def rule_c16_r2(model: Model) -> RuleResult:
     r = RuleResult('C16-R2', 'every class option is accepted at class creation and forwarded to the option record', floor=10)
     po = model.cls(f'{CLS}.PaneOptions')
@@ -576,7 +597,7 @@ def rule_c16_r2(model: Model) -> RuleResult:
                    f"`class C(PaneBase, {pname}=...)` raises TypeError although PaneOptions has the option and the docs list it")
         elif fld not in kws:
             r.fail(f.qualname, f"option {fld} not forwarded", f.loc(rep), f"the class argument {pname} is accepted but silently ignored")
-        elif pname not in {x.id for x in ast.walk(kws[fld]) if isinstance(x, ast.Name)}:
+        elif pname not in _source_names(f, kws[fld]):
             r.fail(f.qualname, f"{fld}={unparse(kws[fld])[:60]}", f.loc(rep), f"option {fld} is not taken from the class argument {pname}")
         else:
             r.ok()
@@ -776,6 +797,30 @@ def rule_c16_r4(model: Model) -> RuleResult:
     return r
 
 
+def _split_top_level(text: str) -> t.List[str]:
+    out, cur, depth, quote = [], '', 0, None
+    for ch in text:
+        if quote:
+            cur += ch
+            if ch == quote:
+                quote = None
+            continue
+        if ch in '\'"':
+            quote = ch
+        if ch in '([{':
+            depth += 1
+        elif ch in ')]}':
+            depth -= 1
+        if ch == ',' and depth == 0:
+            out.append(cur.strip())
+            cur = ''
+        else:
+            cur += ch
+    if cur.strip():
+        out.append(cur.strip())
+    return out
+
+
 def rule_c16_r5(model: Model) -> RuleResult:
     r = RuleResult('C16-R5', 'copies carry every field and own a copy of the set-field record; replace re-validates', floor=5)
     for name in ('__copy__', '__deepcopy__'):
@@ -783,18 +828,22 @@ def rule_c16_r5(model: Model) -> RuleResult:
         cfg = cfg_of(model, f)
         nz = Normalizer(model, f, cfg, param_map=_pm(f))
         r.analysed.add(f.qualname)
-        rets = [n for n in cfg.live_nodes() if n.kind == 'return' and n.ast is not None and isinstance(n.ast.value, ast.Call)]
+        rets = [n for n in cfg.live_nodes() if n.kind == 'return' and n.ast is not None and n.ast.value is not None]
         r.instances += 1
         if len(rets) != 1:
             raise AnalysisError(f"{f.loc()}: {name} is not a single return")
         call = rets[0].ast.value
-        form0 = nz.expr(call.args[0], rets[0]) if call.args else '?'
-        kw = {k.arg: nz.expr(k.value, rets[0]) for k in call.keywords}
+        # read off the normal form (helpers inlined, callbacks applied), not off the syntax of the return
+        whole = nz.expr(call, rets[0])
+        mform = re.match(r'^(self\.from_dict_unchecked|type\(self\)\.from_dict_unchecked|self\.__class__\.from_dict_unchecked)\((.*)\)$', whole)
+        parts = _split_top_level(mform.group(2)) if mform else []
+        form0 = next((p_ for p_ in parts if not re.match(r'^\w+=', p_)), '?')
+        kw = {p_.split('=', 1)[0]: p_.split('=', 1)[1] for p_ in parts if re.match(r'^\w+=', p_)}
         r.sample({name: form0, 'set_fields': kw.get('set_fields')})
         inner = 'getattr(self, ELEM(self.__pane_info__.fields).name)'
         want = {'__copy__': f"DICT(ELEM(self.__pane_info__.fields).name: {inner})",
                 '__deepcopy__': f"DICT(ELEM(self.__pane_info__.fields).name: copy.deepcopy({inner}, $memo))"}[name]
-        if nz.expr(call.func, rets[0]) == 'self.from_dict_unchecked' and form0 == want:
+        if mform and form0 == want:
             r.ok()
         else:
             r.fail(f.qualname, f"{form0[:150]}", f.loc(call),
@@ -874,18 +923,34 @@ def rule_c17_r1(model: Model) -> RuleResult:
         r.fail(f.qualname, f"options start from {base_form[:100]}", f.loc(c),
                "the options a class inherits must be read from the class itself (attribute lookup walks every base in MRO order); reading "
                "them from one chosen base loses the options whenever that base is a plain mixin or a second base carries them")
+    # every keyword of the update is None when the class statement gives no option: decided by executing the function abstractly
+    # (noneval.py) with every class argument at its default, through helpers, tuple unpacking and locals
+    from ..noneval import NONE, NoneEval
+    ev = NoneEval(model)
+    seen: t.Dict[str, t.Set[t.Any]] = {}
+
+    def observe(st: ast.stmt, env: t.Dict[str, t.Any]) -> None:
+        if any(x is c for x in ast.walk(st)):
+            for k_ in c.keywords:
+                if k_.arg is not None:
+                    seen.setdefault(k_.arg, set()).add(ev.value(k_.value, dict(env), f))
+    ev.run(f, ev.defaults(f), observe)
+    if not seen:
+        raise AnalysisError(f"{f.loc(c)}: the option update is not reached when no class option is given")
     for k in c.keywords:
         if k.arg is None:
             continue
         r.instances += 1
-        v = k.value
-        verdict, why = _none_when_unspecified(model, f, cfg, nz, rd, n, v, defaults)
-        r.sample({k.arg: unparse(v)[:60], 'none_when_unspecified': verdict})
+        vals = seen.get(k.arg, set())
+        verdict = vals == {NONE}
+        r.sample({k.arg: unparse(k.value)[:60], 'when unspecified': sorted(map(str, vals))})
         if verdict:
             r.ok()
         else:
-            r.fail(f.qualname, f"{k.arg}={unparse(v)[:70]}", f.loc(v),
-                   f"{why}: a subclass that does not restate `{k.arg}` overrides the inherited value instead of inheriting it")
+            _v2, why = _none_when_unspecified(model, f, cfg, nz, rd, n, k.value, defaults)
+            r.fail(f.qualname, f"{k.arg}={unparse(k.value)[:70]}", f.loc(k.value),
+                   f"{why or 'the value is not None when the class argument is omitted'}: a subclass that does not restate `{k.arg}` overrides "
+                   f"the inherited value instead of inheriting it")
     return r
 
 
@@ -908,6 +973,8 @@ def _none_when_unspecified(model: Model, f: FuncInfo, cfg: CFG, nz: Normalizer, 
                 if not (isinstance(dv, ast.Constant) and dv.value is None):
                     return False, f"class argument `{v.id}` defaults to {unparse(dv) if dv is not None else 'a required value'}, not None"
             elif d.kind == 'assign':
+                if isinstance(d.value, ast.Constant) and d.value.value is None and not d.path:
+                    continue        # `x = None` first, filled in under a test below
                 # a rebinding must be conditional on some class argument having been given
                 ok = False
                 for (aid, lb) in cfg.conditions_of(d.node):
